@@ -1,5 +1,3 @@
--- Root of the `CoclsModel` library: models, generated tables and property theorems.
+-- Root of the `CoclsModel` library. The checks build the modules they need by name
+-- (`lake build CoclsModel.Props.Cxx drv_cxx`); this root only pulls in the shared helpers.
 import CoclsModel.Proto
-import CoclsModel.LimitedQueue
-import CoclsModel.LimitedQueueProofs
-import CoclsModel.Props.C10
